@@ -283,7 +283,9 @@ void HttpMessage::readBody()
 
 	int currentsize = 0;
 
-	bool chunked = header("Transfer-Encoding") == "chunked"; // Handle specially!!
+	// the body is chunked when the last transfer coding is "chunked"; coding names are case-insensitive (RFC 7230 3.3.1, 4)
+	Array<String> codings = header("Transfer-Encoding").toLowerCase().split(',');
+	bool chunked = codings.length() > 0 && codings.last().trimmed() == "chunked";
 
 	_sink->init(size);
 
